@@ -140,6 +140,17 @@ class WalletProp(BaseProp):
                 except Exception:
                     ov = None
             return {"xpub": xpub, "ob": ov, "full": fv, "or": c_oracles(rec), "err": ov is None}
+        if k == "WatchGen":
+            from btc_hd_wallet.base_wallet import BaseWallet
+            full = build_wallet(case["w"])
+            xpub = full.master.derive_path(list(case["export"])).extended_public_key(version=case["v"])
+            wo = BaseWallet.from_extended_key(xpub)
+            nd = wo.master.derive_path(list(case["sub"]))
+            try:
+                ob = [c.index for c in nd.generate_children(interval=tuple(case["interval"]))]
+            except Exception:
+                ob = None
+            return {"ob": ob, "touches": any(i >= H for i in range(*case["interval"])), "err": ob is None}
         if k == "ParCli":
             from props.c20 import run_main, build_argv
             v = dict(case["v"], paranoia=True)
@@ -148,6 +159,10 @@ class WalletProp(BaseProp):
                 d = tempfile.mkdtemp(prefix="c15_")
                 try:
                     fp = os.path.join(d, "wallet.json")
+                    if case["file"] == "trailing-slash":            # passes the argument check, open() fails
+                        fp = fp + "/"
+                    elif case["file"] == "dangling-symlink":
+                        os.symlink(os.path.join(d, "no_such_dir", "target.json"), fp)
                     code, out, err = run_main(build_argv(v, fp))
                     try:
                         out = out + "\n--file--\n" + open(fp).read()
@@ -181,6 +196,8 @@ class WalletProp(BaseProp):
             iv = v.get("interval")
             harvest(w.generate(account=int(v.get("account") or 0), interval=(int(iv[0]), int(iv[1]))), True)
             harvest(w.generate(), False)                      # what a fall-back to the defaults would print
+            if code != 0:
+                publics = set()                                   # a run that failed owes no output, but must not leak either
             return {"secrets": sorted(secrets), "publics": sorted(publics), "out": out, "code": code, "err": code != 0}
         if k == "NodeKeys":
             rec = Recorder()
@@ -226,6 +243,8 @@ class WalletProp(BaseProp):
             return "(Was %s %s %s)" % (obs["or"], c_wspec(case["w"]), rt(obs["ob"]))
         if k == "WasX":
             return "(WasX %s %s %s)" % (obs["or"], zs(obs["xprv"]), rt(obs["ob"]))
+        if k == "WatchGen":
+            return "(WatchGen %s %s)" % (cbool(obs["touches"]), cres(obs["ob"], lambda l: "[" + ";".join("(%d)" % i for i in l) + "]"))
         if k == "ParCli":
             return "(ParCli [%s] [%s] %s)" % (";".join(zs(x) for x in obs["secrets"]), ";".join(zs(x) for x in obs["publics"]), zs(obs["out"]))
         if k == "NodeKeys":
